@@ -93,6 +93,11 @@ def gen_c01(tier, rng):
         s = random_bytes(rng, 16)
         sc = bytes(rng.randint(0, 1) for _ in range(len(usegs(s)) + 3))
         add(s, sc, 'malformed')
+    # the same schedules through the generic components API next to real std::path (remainders, offsets,
+    # what the partially consumed iterator reports about itself)
+    for c in cases[::9]:
+        parts = c.split('\t')
+        cases.append('pair.c03\t' + parts[1] + '\t' + parts[2])
     return cases, dist
 
 
@@ -380,6 +385,10 @@ def gen_c17(tier, rng):
         for s in sweep256(enc):
             for fam in fams_for(enc, [s], rng, all_fams=True):
                 cases.append(case('c17.' + fam, s))
+            # the InvalidFilename verdict of the checked conversions (to the other and to the own encoding)
+            cases.append(case('c16.' + enc, s))
+    c16, _ = gen_unary('c16', scale=0.2, fam_filter=lambda f: f in ('u', 'w', 'u8', 'w8'))(tier, rng)
+    cases += c16
     return cases, dist
 
 
@@ -646,7 +655,7 @@ PROPS = {
     'C02': P(gen_c02, 'Proved in Coq for all byte strings (Props/C02.v): the model prefix parser equals the declarative six-kind grammar, the component list equals the specification wspec, every prefix/root/absoluteness query equals its definition over that decomposition, drive letters are upper-case ASCII, at most one prefix and only first. The same specification is evaluated on the implementation output of every explored case (oracle_c02: components from both ends, 13 queries, try_from, prefix length/verbatim flag).', NOTE_CORR),
     'C03': P(gen_c03, 'Double-ended coherence: interleaving theorem over the generic core parser (CoreSched.sched_spec) instantiated for Unix and for the Windows body; offsets/conservation checked by correspondence.', NOTE_CORR),
     'C04': P(gen_pairs('c04'), 'Checked join: decision procedure (scan) modelled and tied to the code for byte, UTF-8 and typed families; theorems in Props/C04.v.', NOTE_CORR),
-    'C05': P(gen_pairs('c05'), 'Equality / ordering / hashing coherence: models of eq, cmp and of the hasher call sequence tied to the code; theorems in Props/C05.v.', NOTE_CORR),
+    'C05': P(gen_pairs('c05'), 'Proved in Coq for all byte strings, both encodings (Props/C05.v): equality iff equal specification component sequences (Windows prefixes by parsed kind), the order is the lexicographic lift of the component order and is total (antisymmetric, transitive, Equal iff equal), the hasher feed is the derived hash of the parsed prefix kind followed by the bytes of every non-root component and their total length, hence equal paths feed identical data (C05_unix_eq_same_hash, C05_windows_eq_same_hash, C05_windows_hash_feed; the separator scan is proved once for any separator test and normalisation flag). All closed under the global context; the same statements are evaluated on the implementation output (recorded Hasher calls) of every explored pair by oracle_c05.', NOTE_CORR),
     'C06': P(gen_c06, 'Unix queries against a Gallina transcription of std::path (StdUnix.v), itself diffed against the real std::path on every case.', NOTE_CORR),
     'C07': P(gen_c07, 'Unix buffer histories against the std::path::PathBuf transcription and the real PathBuf.', NOTE_CORR),
     'C08': P(gen_c08, 'Proved in Coq for ALL pairs of byte strings: the model of WindowsEncoding::push equals the documented rule table Spec.join_spec (written over the grammar specification only), every history of pushes is the same fold of the table, empty b changes nothing, a prefixed b replaces a, the non-verbatim results are a (or its prefix) + optional separator + b, the verbatim step never lets a . or .. through (Props/C08.v: C08_bytes, C08_histories, C08_empty, C08_prefixed, C08_nonverbatim_bytes, C08_verbatim_step_clean; closed under the global context). join_spec itself is evaluated on the implementation output of every explored pair and push history (oracle_c08, oracle_hist). The component-level reading of the non-verbatim branches is decided by the C10 oracle.', NOTE_CORR),
@@ -654,7 +663,7 @@ PROPS = {
     'C10': P(gen_pairs('c10'), 'Proved in Coq (Props/C10.v): for any double-ended component iterator whose components are determined by their bytes, helpers::iter_after decides exactly the leading-run / trailing-run relation (C10_abstract_front); at Unix, for all byte strings: starts_with iff q components are a leading run of p, ends_with mirror image, strip_prefix succeeds iff starts_with and its remainder re-parses to the rest, equal paths start/end with each other, a joined with a relative b starts with a and stripping yields what b adds. Windows components are not determined by their bytes: known finding D7; D10 and D15 are the two further Windows classes; everything else is decided for Windows by oracle_c10 (component relations over the grammar spec, join-back, join consistency) on every explored pair.', NOTE_CORR),
     'C11': P(gen_unary('c11'), 'Proved in Coq for all Unix byte strings (Props/C11.v): the normalised path read back is the lexical fold Spec.nfold of the input components, it contains no . or .., has the same root/absoluteness, and normalising again returns the same bytes (C11_unix_fold, C11_unix_clean, C11_unix_root, C11_unix_idempotent); the model fold equals Spec.nfold for any component list (C11_fold_is_nfold). Windows: the same statements are evaluated by oracle_c11 on the implementation output of every explored well-formed path (C11_windows_partial: the byte-level re-push after a prefix is not proved).', NOTE_CORR),
     'C12': P(gen_pairs('c12', second='names'), 'file_name / file_stem / extension / with_file_name: model tied to the code; decomposition theorems in Props/C12.v.', NOTE_CORR),
-    'C13': P(gen_c13, 'set_extension (repaired by a fix: commit): model tied to the code and to std::path::PathBuf::set_extension.', NOTE_CORR),
+    'C13': P(gen_c13, 'Proved in Coq for all Unix buffers and extensions (Props/C13.v): without a file name the call returns false and leaves the buffer untouched; with a file name it returns true and the bytes are everything before the name, the old stem and (for a non-empty extension) a dot and the extension, whatever separators or . segments trailed the name; read back, the components are the old ones with the last replaced by the new name, so file name = stem[.ext] and the parent is unchanged, for every separator-free extension outside the known class D13 (refuted-witness lemma C13_d13_refuted); the truncation point is a UTF-8 character boundary and the result valid UTF-8 (no panic in the String twin). Windows and byte-equality with std::path::PathBuf::set_extension are decided on every explored case (oracle_c13, pair.c13 against real std).', NOTE_CORR),
     'C14': P(gen_c14, 'UTF-8 families answered by the byte model on valid UTF-8 inputs; every &str re-validated in the harness; conversions succeed exactly on valid UTF-8 (utf8_valid defined in Coq).', NOTE_CORR),
     'C15': P(gen_c15, 'Proved: derive selects Windows exactly when the bytes start with a backslash or the grammar specification finds a prefix (Props/C15.v C15_derive); the dispatch table regenerated from src/typed/** and src/platform.rs on every run satisfies forwards-to-same-method / re-wraps-same-variant (translator obligations). Every typed/platform family is diffed against the byte family of its encoding on every explored case, variant tags included.', NOTE_CORR),
     'C16': P(gen_unary('c16', fam_filter=lambda f: f in ('u', 'w', 'u8', 'w8', 'tu', 'tw', 't8u', 't8w', 'tbu', 'tbw', 'tb8u', 'tb8w')), 'Encoding conversion: model of with_encoding(_checked) tied to the code in both directions and for UTF-8/typed forms; the property itself (same bytes to the own encoding, kinds and names kept, prefix dropped, rootedness, checked = unchecked and valid, failure on forbidden bytes) is evaluated over the specifications by oracle_c16 on every explored case; D9, D12, D14 are the known classes. No all-input theorem about the conversion is proved yet (C16 partial).', NOTE_CORR),
